@@ -9,6 +9,7 @@ import Driver.C10
 import Driver.C12
 import Driver.C12Mon
 import Driver.C13
+import Driver.C13Heap
 import Driver.C13Mon
 import Driver.C14
 import Driver.C14Mon
@@ -38,6 +39,7 @@ def suites : List (String × Driver.Suite) :=
   Driver.C12.suites ++
   Driver.C12Mon.suites ++
   Driver.C13.suites ++
+  Driver.C13Heap.suites ++
   Driver.C13Mon.suites ++
   Driver.C14.suites ++
   Driver.C14Mon.suites ++
